@@ -8,7 +8,6 @@
 (***************************************************************************)
 EXTENDS CruxCommand
 
-CONSTANT KFS    \* set of named known deviations the model admits (DESIGN.md 2.6); {} = strict
 
 VARIABLES
   modelLog,   \* sequence of applied events (the app's model; what `view` shows)
@@ -110,7 +109,6 @@ ExecTasks == Cardinality(LiveIn(St, CORE))
 ---------------------------------------------------------------------------
 (* Bridge: ResolveRegistry (bridge/registry.rs) and BridgeWithSerializer::process *)
 
-KnownDev(d) == d \in KFS
 
 \* entries the strict model keeps: requests that can still be resolved
 Storable(kind) == kind # "never"
